@@ -15,6 +15,7 @@ from decimal import Decimal
 from hypothesis import strategies as st
 
 from ..runner import Violation
+from ..guards import unchanged
 from .. import tables_c20 as R
 
 PROPERTY = "C20"
@@ -28,7 +29,10 @@ RULE = ("sweep: for each of the 118 elements (plus the neutron slot of the cryst
         "attribute, no key or an exception; every element and every ion of the table (and the same of its first isotope) is asked for f0 through .xray.f0; fxrayatq spellings 'Na+' and charge=c resolve to the entry of that ion. "
         "j0(0) within 0.5 % of 1 and j2/j4/j6 at Q=0 equal 0 for all 98 charge states. generated: (entry, order, "
         "1-6 Q values in [0, 30], scalar/list/ndarray call, table) -> *_Q(Q), fxrayatq and .xray.f0 equal the "
-        "documented sum of exponentials evaluated with math.exp/fsum. Every entry is non-trivial (finite domain swept "
+        "documented sum of exponentials evaluated with math.exp/fsum; a list/ndarray Q handed to the library must come back "
+        "unchanged; 'reuse' cases hand ONE list/ndarray object to every available order (j0, j2, j4, j6, J, M) of two "
+        "ions and to .xray.f0 / fxrayatq / fxrayatstol of two labels in a row and judge every result against the "
+        "intended Q values. Every entry is non-trivial (finite domain swept "
         "completely); generated cases are non-trivial when some Q > 0; distinct by (table, element, group) / by value.")
 ASSUMPTIONS = [
     "the embedded text is the specification; a coefficient is served correctly iff it == float(<its text>) (exact); "
@@ -393,26 +397,102 @@ def mff_value(coef, jn, Q):
     return math.fsum(terms), math.fsum(abs(t) for t in terms)
 
 
-def _call(fn, qs, how):
-    """Call fn with the Q values as scalar(s) / list / ndarray; returns list of floats."""
+def _call(fn, qs, how, case=None):
+    """Call fn with the Q values as scalar(s) / list / ndarray; returns list of floats.  A list or
+    array handed to the library must come back unchanged (bucket c20:argument-modified:Q)."""
     import numpy
     if how == "scalar":
         out = []
         for q in qs:
             v = fn(q)
             if numpy.shape(v) != ():
-                raise Violation("c20:formula:shape", "scalar Q gave a result of shape %r" % (numpy.shape(v),))
+                raise Violation("c20:formula:shape", "scalar Q gave a result of shape %r" % (numpy.shape(v),), case)
             out.append(float(v))
         return out
     arg = list(qs) if how == "list" else numpy.array(qs, dtype=float)
-    v = numpy.asarray(fn(arg))
+    with unchanged("c20", case, Q=arg):
+        v = numpy.asarray(fn(arg))
     if v.shape != (len(qs),):
-        raise Violation("c20:formula:shape", "%d Q values (%s) gave a result of shape %r" % (len(qs), how, v.shape))
+        raise Violation("c20:formula:shape", "%d Q values (%s) gave a result of shape %r" % (len(qs), how, v.shape), case)
     return [float(x) for x in v]
+
+
+def _atom_of_label(T, label):
+    """Element or ion of table T that the Waasmaier-Kirfel label names, or None."""
+    import re
+    m = re.match(r"^([A-Z][a-z]?)(?:(\d)([+-]))?$", label)
+    if not m:
+        return None
+    el = T.symbol(m.group(1))
+    if not m.group(2):
+        return el
+    c = int(m.group(3) + m.group(2))
+    return el.ion[c] if c in el.ions else None
+
+
+def check_reuse(ctx, value):
+    """One Q grid object (ndarray or list) handed to many form-factor calls in a row: every result must be the
+    documented expression at the INTENDED Q values, and the grid must come back unchanged."""
+    import numpy
+    from periodictable import cromermann
+    kind, idx, jsel, qs, how, which = value
+    E = env()
+    T = E["tables"][which]
+    case = {"kind": "q", "value": value}
+    how = "list" if how == "list" else "ndarray"
+    Q = list(qs) if how == "list" else numpy.array(qs, dtype=float)
+    S = [q / (4 * math.pi) for q in qs]
+    stol = list(S) if how == "list" else numpy.array(S, dtype=float)
+    states = sorted((sy, c) for sy, v in E["oracle"]["magnetic"].items() for c in v)
+    labels = sorted(E["oracle"]["cm"])
+    two_states = [states[idx % len(states)], states[(idx // 97 + 7 * jsel + 1) % len(states)]]
+    two_labels = [labels[idx % len(labels)], labels[(idx // 89 + 13 * jsel + 1) % len(labels)]]
+    calls = []      # (description, thunk(grid), grid, wants, bucket)
+    for sym, c in two_states:
+        ent = E["oracle"]["magnetic"][sym][c]
+        ff = T.symbol(sym).magnetic_ff[c]
+        for jn in ORDERS + ["M"]:
+            base = "j0" if jn == "M" else jn
+            if base not in ent:
+                continue
+            calls.append(("%s %s.magnetic_ff[%d].%s_Q" % (which, sym, c, jn), getattr(ff, jn + "_Q"), Q,
+                          [mff_value(ent[base][-1], base, q) for q in qs], "c20:formula:reuse:magnetic"))
+    for label in two_labels:
+        ent = E["oracle"]["cm"][label]
+        wants = [cm_value(ent, q) for q in qs]
+        atom = _atom_of_label(T, label)
+        if atom is not None:
+            calls.append(("%s %r.xray.f0" % (which, atom), atom.xray.f0, Q, wants, "c20:formula:reuse:cm"))
+        calls.append(("fxrayatq(%r, Q)" % label, (lambda g, label=label: cromermann.fxrayatq(label, g)), Q, wants,
+                      "c20:formula:reuse:cm"))
+        calls.append(("fxrayatstol(%r, Q/4pi)" % label, (lambda g, label=label: cromermann.fxrayatstol(label, g)), stol,
+                      wants, "c20:formula:reuse:cm"))
+    if jsel % 2:
+        calls.reverse()
+    ctx.case(repr(value), nontrivial=any(q > 0 for q in qs),
+             sample={"reuse": [c[0] for c in calls], "Q": qs, "how": how},
+             cls=["q:reuse:" + how, "reuse-calls:%d" % min(len(calls), 18), "table:" + which])
+    for n, (desc, fn, grid, wants, bucket) in enumerate(calls):
+        got = numpy.asarray(fn(grid))
+        if got.shape != (len(qs),):
+            raise Violation("c20:formula:shape", "%s: %d Q values gave shape %r" % (desc, len(qs), got.shape), case)
+        for q, g, (w, scale) in zip(qs, got, wants):
+            g = float(g)
+            if not (g == g) or abs(g - w) > 1e-12 * scale + TINY:
+                raise Violation(bucket, "%s(%r) = %r as call #%d on one %s grid, the documented expression gives %r"
+                                % (desc, q, g, n + 1, how, w), case)
+    for name, grid, want in (("Q", Q, qs), ("stol", stol, S)):
+        now = [float(x) for x in grid]
+        if len(now) != len(want) or any(a != b for a, b in zip(now, want)) or \
+                (how == "ndarray" and grid.dtype != numpy.float64):
+            raise Violation("c20:argument-modified:" + name,
+                            "after %d calls the caller's %s %s is %r, it was %r" % (len(calls), how, name, now, want), case)
 
 
 def check_q(ctx, value):
     kind, idx, jsel, qs, how, which = value
+    if kind == "reuse":
+        return check_reuse(ctx, value)
     E = env()
     T = E["tables"][which]
     case = {"kind": "q", "value": value}
@@ -424,7 +504,7 @@ def check_q(ctx, value):
         jn = orders[jsel % len(orders)]
         coef = ent["j0" if jn == "M" else jn][-1]
         ff = T.symbol(sym).magnetic_ff[c]
-        got = _call(getattr(ff, jn + "_Q"), qs, how)
+        got = _call(getattr(ff, jn + "_Q"), qs, how, case)
         desc = "%s %s.magnetic_ff[%d].%s_Q" % (which, sym, c, jn)
         wants = [mff_value(coef, "j0" if jn == "M" else jn, q) for q in qs]
         bucket = "c20:formula:magnetic:" + ("j0" if jn in ("j0", "M", "J") else "jn")
@@ -440,14 +520,22 @@ def check_q(ctx, value):
                                    int(m.group(3) + m.group(2)) in T.symbol(m.group(1)).ions):
             el = T.symbol(m.group(1))
             atom = el.ion[int(m.group(3) + m.group(2))] if m.group(2) else el
-            got = _call(atom.xray.f0, qs, how)
+            got = _call(atom.xray.f0, qs, how, case)
             desc = "%s %r.xray.f0" % (which, atom)
             cls = ["q:f0:" + ("ion" if m.group(2) else "element")]
         else:
             from periodictable import cromermann
-            got = _call(lambda q: cromermann.fxrayatq(label, q), qs, how)
-            desc = "fxrayatq(%r, Q)" % label
-            cls = ["q:fxrayatq"]
+            if jsel % 3 == 2:
+                # sin(theta)/lambda entry point; the reference stays a function of the intended Q
+                ss = [q / (4 * math.pi) for q in qs]
+                wants = [cm_value(ent, 4 * math.pi * x) for x in ss]
+                got = _call(lambda x: cromermann.fxrayatstol(label, x), ss, how, case)
+                desc = "fxrayatstol(%r, s) at s=Q/4pi, Q" % label
+                cls = ["q:fxrayatstol"]
+            else:
+                got = _call(lambda q: cromermann.fxrayatq(label, q), qs, how, case)
+                desc = "fxrayatq(%r, Q)" % label
+                cls = ["q:fxrayatq"]
     cls += ["call:" + how, "table:" + which]
     ctx.case(repr(value), nontrivial=any(q > 0 for q in qs), sample={"call": desc, "Q": qs, "how": how}, cls=cls)
     for q, g, (w, scale) in zip(qs, got, wants):
@@ -457,7 +545,7 @@ def check_q(ctx, value):
 
 def q_strategy():
     q = st.one_of(st.floats(0, 30), st.floats(0, 30), st.floats(0, 1), st.sampled_from([0.0, 30.0, 4 * math.pi]))
-    return st.tuples(st.sampled_from(["magnetic", "magnetic", "cm", "f0"]), st.integers(0, 10**4), st.integers(0, 11),
+    return st.tuples(st.sampled_from(["magnetic", "magnetic", "cm", "f0", "reuse"]), st.integers(0, 10**4), st.integers(0, 11),
                      st.lists(q, min_size=1, max_size=6), st.sampled_from(["scalar", "list", "ndarray"]),
                      st.sampled_from(["public", "private"])).map(list)
 
@@ -473,7 +561,7 @@ def tasks(tier):
            ("tables-private", task_tables, dict(which="private")),
            ("cromer-mann", task_cm, {})]
     if tier == "quick":
-        out += [("q-%d" % k, task_q, dict(n=4000)) for k in range(5)]
+        out += [("q-%d" % k, task_q, dict(n=2000)) for k in range(5)]
     else:
         out += [("q-%d" % k, task_q, dict(n=45000)) for k in range(13)]
     return out
